@@ -524,8 +524,63 @@ func vfC13TCPMux(e *vfEnv, r *vfResult, idx int) {
 		return
 	}
 	real := sp.underlying.(*tcpPacketConn) //nolint:forcetypeassert
-	for k, i := range rng.Perm(n) {
+	order := rng.Perm(n)
+	// a TCP client attached to this ufrag: siblings of a closed handle must keep receiving from it and writing to it
+	user := "uT:remote"
+	cl, cerr := net.DialTimeout("tcp", ln.Addr().String(), 2*time.Second)
+	if cerr == nil {
+		defer cl.Close() //nolint:errcheck
+		_, _ = cl.Write(vfFrame(vfStunWithUser(rng, &user)))
+	}
+	// the handle closed first has a read pending (with or without a far read deadline armed)
+	first := order[0]
+	withDeadline := rng.IntN(2) == 0
+	probe := cerr == nil && vfC13PendingStuck.Load() < 2
+	pending := make(chan error, 1)
+	if probe {
+		// drain the client's first message through the handle that stays open longest, so that the pending read really waits
+		last := hs[order[n-1]]
+		_ = last.SetReadDeadline(time.Now().Add(3 * time.Second))
+		_, _, _ = last.ReadFrom(make([]byte, 1500))
+		_ = last.SetReadDeadline(time.Time{})
+		if withDeadline {
+			_ = hs[first].SetReadDeadline(time.Now().Add(time.Hour))
+		}
+		go func() { _, _, err := hs[first].ReadFrom(make([]byte, 1500)); pending <- err }()
+		time.Sleep(100 * time.Microsecond)
+	}
+	for k, i := range order {
 		_ = hs[i].Close()
+		if k == 0 && probe {
+			select {
+			case err := <-pending:
+				if err == nil {
+					r.violation("closed-handle-read-error:tcpmux", "the pending read of a closed TCP-mux handle returned data", map[string]any{"idx": idx})
+				}
+			case <-time.After(10 * time.Second):
+				vfC13PendingStuck.Add(1)
+				r.violation("closed-handle-read-still-pending:tcpmux", fmt.Sprintf("history %d: 10 s after Close of a TCP-mux handle its own pending read (read deadline armed: %v) is still blocked while %d sibling(s) are open", idx, withDeadline, n-1), map[string]any{"idx": idx, "handles": n})
+				for _, h := range hs {
+					_ = h.Close()
+				}
+
+				return
+			}
+			// a sibling still receives from the client and can answer it
+			if n > 1 {
+				sib := hs[order[n-1]]
+				_, _ = cl.Write(vfFrame([]byte("\x90to-sibling")))
+				_ = sib.SetReadDeadline(time.Now().Add(5 * time.Second))
+				buf := make([]byte, 1500)
+				m, from, rerr := sib.ReadFrom(buf)
+				if rerr != nil || string(buf[:m]) != "\x90to-sibling" {
+					r.violation("sibling-unusable-after-handle-close:tcpmux", fmt.Sprintf("history %d: after one of %d handles was closed a sibling's read gave n=%d err=%v", idx, n, m, rerr), map[string]any{"idx": idx})
+				} else if _, werr := sib.WriteTo([]byte("\x90back"), from); werr != nil {
+					r.violation("sibling-unusable-after-handle-close:tcpmux", fmt.Sprintf("history %d: after one of %d handles was closed a sibling's write failed: %v", idx, n, werr), map[string]any{"idx": idx})
+				}
+				_ = sib.SetReadDeadline(time.Time{})
+			}
+		}
 		r.eval(1)
 		if real.isClosed() != (k == n-1) {
 			r.violation("underlying-closed-while-handles-open:tcpmux", fmt.Sprintf("history %d: %d of %d TCP-mux handles closed; underlying closed=%v", idx, k+1, n, real.isClosed()), map[string]any{"idx": idx})
@@ -533,7 +588,7 @@ func vfC13TCPMux(e *vfEnv, r *vfResult, idx int) {
 			return
 		}
 	}
-	r.distinct(fmt.Sprintf("tcprefs/n%d", n))
+	r.distinct(fmt.Sprintf("tcprefs/n%d/probe=%v/deadline=%v", n, probe, withDeadline))
 }
 
 func TestVerifC13(t *testing.T) {
